@@ -639,8 +639,22 @@ RULES = {
     "R3u2": Rule("R3u2", "x.sqrt().into() (num_integer::Roots on u64: external crate) -> From::from(__u64_sqrt(x))", "x . sqrt ( ) . into ( )", "From :: from ( __u64_sqrt ( x ) )"),
     "R3u3": Rule("R3u3", "x.cbrt().into() (num_integer::Roots on u64: external crate) -> From::from(__u64_cbrt(x))", "x . cbrt ( ) . into ( )", "From :: from ( __u64_cbrt ( x ) )"),
     "R3un": Rule("R3un", "x.nth_root(n).into() (num_integer::Roots on u64: external crate) -> From::from(__u64_nth_root(x, n))", "x . nth_root ( n ) . into ( )", "From :: from ( __u64_nth_root ( x , n ) )"),
+    "R25": Rule("R25", "V.extend(S.chunks(2).map(F)) -> explicit loop pushing F(&S[i..min(i+2,len)]) (std: `chunks(2)` yields consecutive sub-slices of length 2, the last possibly shorter; `map`/`extend` apply F and push in order)",
+                "$$v . extend ( $s . chunks ( 2 ) . map ( $f ) )",
+                "{ let mut i__ = 0 ; while i__ < $s . len ( ) { let e__ = if $s . len ( ) - i__ < 2 { $s . len ( ) } else { i__ + 2 } ; $$v . push ( $f ( & $s [ i__ .. e__ ] ) ) ; i__ = e__ ; } }",
+                guard=lambda e: e["$$v"] and all(t not in (";", "=", "{", "}", ",") for t in e["$$v"])),
+    "R10c": Rule("R10c", "for mut r in V[..N].iter().cloned() { BODY } -> index loop with `let mut r = V[i]` (std: `cloned` copies each element)",
+                 "for mut $r in $$v [ .. $n ] . iter ( ) . cloned ( ) { $$body }",
+                 "{ let mut i__ = 0 ; while i__ < $n { let mut $r = $$v [ i__ ] ; i__ += 1 ; $$body } }"),
+    "R12m": Rule("R12m", "Integer::div_ceil(&A, &B).to_usize().unwrap_or(usize::MAX) -> __cap_hint(A, B)  (num_integer / num_traits on u64: external crates; the value is only used as a capacity hint, the helper promises nothing about it)",
+                 "Integer :: div_ceil ( & $$a , & $$b ) . to_usize ( ) . unwrap_or ( usize :: MAX )", "__cap_hint ( $$a , $$b )"),
+    "R26": Rule("R26", "V.chunks(N).map(|chunk| { chunk.iter().rev().fold(INIT, |acc, &c| BODY) }).collect() -> nested index loops building the Vec (std: `chunks(N)` yields consecutive sub-slices of length N, the last possibly shorter; `rev().fold` folds from the last element down; `collect` pushes in order)",
+                "$v . chunks ( $$n ) . map ( | $chunk | { $chunk . iter ( ) . rev ( ) . fold ( $init , | $acc , & $c | $$body ) } ) . collect ( )",
+                "{ let mut out__ = Vec :: new ( ) ; let n__ : usize = $$n ; let mut i__ = 0 ; while i__ < $v . len ( ) { let e__ = if $v . len ( ) - i__ < n__ { $v . len ( ) } else { i__ + n__ } ; let $chunk = & $v [ i__ .. e__ ] ; let mut $acc = $init ; let mut j__ = $chunk . len ( ) ; while j__ > 0 { j__ -= 1 ; let $c = $chunk [ j__ ] ; $acc = $$body ; } out__ . push ( $acc ) ; i__ = e__ ; } out__ }"),
     "R17": Rule("R17", "self.sign.cmp(&other.sign) -> sign_cmp(&self.sign, &other.sign)",
                 "self . sign . cmp ( & other . sign )", "sign_cmp ( & self . sign , & other . sign )"),
+    "R2c": Rule("R2c", "if let Some(&x) = E { S } -> if let Some(x_r__) = E { let x = *x_r__; S }  (Copy element type)",
+                "if let Some ( & $x ) = $$e { $$s }", "if let Some ( x_r__ ) = $$e { let $x = * x_r__ ; $$s }"),
     "R2b": Rule("R2b", "Some((&x, y)) => { BODY } -> Some((x_r__, y)) => { let x = *x_r__; BODY }",
                 "Some ( ( & $x , $y ) ) => { $$body }", "Some ( ( x_r__ , $y ) ) => { let $x = * x_r__ ; $$body }"),
     # num_integer::Integer::is_even on a primitive (external crate) -> helper with the arithmetic definition
@@ -765,6 +779,34 @@ def apply_cfg_rule(ss, log, where):
                 j += 1
             log.append({"rule": "R0", "function": where, "from": join(ss[i:j + 1]), "to": "(inactive cfg: dropped)"})
             i = j + 1
+            continue
+        out.append(ss[i])
+        i += 1
+    return out
+
+
+def apply_cfg_digit_expr(ss, log, where):
+    """R0d: `cfg_digit_expr!(E32, E64)` -> `E64` (the crate's macro selects by target_pointer_width; fixed target: 64-bit)."""
+    out = []
+    i = 0
+    while i < len(ss):
+        if ss[i] == "cfg_digit_expr" and i + 2 < len(ss) and ss[i + 1] == "!" and ss[i + 2] == "(":
+            depth = 0
+            k = i + 2
+            comma = None
+            while True:
+                if ss[k] in OPEN:
+                    depth += 1
+                elif ss[k] in CLOSE:
+                    depth -= 1
+                    if depth == 0:
+                        break
+                elif ss[k] == "," and depth == 1 and comma is None:
+                    comma = k
+                k += 1
+            out.extend(ss[comma + 1:k])
+            log.append({"rule": "R0d", "function": where, "from": "cfg_digit_expr!(E32, E64)", "to": "E64"})
+            i = k + 1
             continue
         out.append(ss[i])
         i += 1
